@@ -13,6 +13,7 @@ import (
 	"github.com/nyaruka/goflow/flows"
 	"github.com/nyaruka/goflow/flows/engine"
 	"github.com/nyaruka/goflow/flows/events"
+	"github.com/nyaruka/goflow/flows/resumes"
 	"github.com/nyaruka/goflow/flows/triggers"
 )
 
@@ -267,6 +268,7 @@ func runC18(c *Ctx) {
 	c.Notes = append(c.Notes, "exhaustive over the finite text grid (contact language x allowed list x base language x translation state per language); the theorems cover arbitrary language lists")
 
 	runC18Voice(c, contactLangs, allowedLists, baseLangs)
+	runC18Scenarios(c)
 
 	// ---- sampled: attachments, quick replies, category names of different lengths ----------
 	n := c.N(1500, 60000)
@@ -477,6 +479,146 @@ func runC18Voice(c *Ctx, contactLangs []string, allowedLists [][]string, baseLan
 		}
 	}
 	c.Dist["voice-grid-size"] = count
+}
+
+// runC18Scenarios: (a) a send_msg with a template to all URNs - the messages that use a template translation carry the
+// translation's locale, the others the language their text was taken from, in every order of the URNs and for every
+// placement of the template translations; (b) a result saved again with the same value and category after the contact's
+// language changed carries the category name in the language now in force.
+func runC18Scenarios(c *Ctx) {
+	wa, ph := "8b3fc10f-e6b9-4817-8dba-b1a17d92fb5d", "4dc54f4e-3673-4514-a945-74af0084baa2"
+	actionUUID := "95e6ccaa-d655-4d91-86e0-9eafffacf740"
+	for _, cl := range []string{"spa", "eng", "fra", ""} {
+		for _, trOn := range [][]string{{wa}, {ph}, {wa, ph}, {}} {
+			for _, urnOrder := range [][]string{{"whatsapp:12065551212", "tel:+12065551212"}, {"tel:+12065551212", "whatsapp:12065551212"}} {
+				for _, tplLocale := range []string{"eng-US", "fra-FR"} {
+					var trs []any
+					for _, ch := range trOn {
+						trs = append(trs, map[string]any{"channel": map[string]any{"uuid": ch, "name": "C"}, "locale": tplLocale,
+							"components": []any{map[string]any{"name": "body", "type": "body/text", "content": "from the template", "variables": map[string]any{}}}, "variables": []any{}})
+					}
+					if trs == nil {
+						trs = []any{}
+					}
+					def := map[string]any{"uuid": "50c3706e-fedb-42c0-8eab-dda3335714b7", "name": "T", "spec_version": "13.6.0", "language": "eng", "type": "messaging", "revision": 1, "expire_after_minutes": 60,
+						"localization": map[string]any{"spa": map[string]any{actionUUID: map[string]any{"text": []string{"Hola"}}}},
+						"nodes": []any{map[string]any{"uuid": "e15edcd9-d6be-45c3-9de6-ad4eff2bb184", "actions": []any{map[string]any{"uuid": actionUUID, "type": "send_msg", "text": "Hello", "all_urns": true,
+							"template": map[string]any{"uuid": "21754637-52e6-401b-92c5-55359ca02174", "name": "greeting"}}}, "exits": []any{map[string]any{"uuid": "656d3b7b-5b33-4f27-855c-17faa6da9619"}}}}}
+					aj, _ := json.Marshal(map[string]any{"flows": []any{def},
+						"channels":  []any{map[string]any{"uuid": wa, "name": "WhatsApp", "address": "12065550001", "schemes": []string{"whatsapp"}, "roles": []string{"send", "receive"}}, map[string]any{"uuid": ph, "name": "Phone", "address": "+12065550002", "schemes": []string{"tel"}, "roles": []string{"send", "receive"}}},
+						"templates": []any{map[string]any{"uuid": "21754637-52e6-401b-92c5-55359ca02174", "name": "greeting", "translations": trs}}})
+					desc := map[string]any{"assets": json.RawMessage(aj), "contact_language": cl, "urns": urnOrder, "label": "template-destinations"}
+					src, err := static.NewSource(aj)
+					if err != nil {
+						c.Count("C18-assets-rejected")
+						continue
+					}
+					env := envs.NewBuilder().WithAllowedLanguages("eng", "spa").Build()
+					sa, err := engine.NewSessionAssets(env, src, nil)
+					if err != nil {
+						c.Count("C18-assets-rejected")
+						continue
+					}
+					var msgs []*events.MsgCreatedEvent
+					if c.Guard("C18-run", "panic:localize", desc, func() {
+						restore := setDeterministic(1)
+						defer restore()
+						contact := flows.NewEmptyContact(sa, "Ann", i18n.Language(cl), nil)
+						for _, u := range urnOrder {
+							contact.AddURN(urns.URN(u), nil)
+						}
+						trig := triggers.NewBuilder(env, assets.NewFlowReference("50c3706e-fedb-42c0-8eab-dda3335714b7", "T"), contact).Manual().Build()
+						_, sp, err := engine.NewBuilder().Build().NewSession(sa, trig)
+						if err != nil {
+							c.Count("C18-go-error")
+							return
+						}
+						for _, e := range sp.Events() {
+							if m, ok := e.(*events.MsgCreatedEvent); ok {
+								msgs = append(msgs, m)
+							}
+						}
+					}) {
+						continue
+					}
+					wantLang := "eng"
+					wantText := "Hello"
+					if cl == "spa" {
+						wantLang, wantText = "spa", "Hola"
+					}
+					for _, m := range msgs {
+						c.Count("check:M-fallback-template")
+						c.Eval(fmt.Sprintf("tpl|%s|%d|%v|%s", cl, len(trOn), m.Msg.Templating() != nil, tplLocale))
+						l, _ := m.Msg.Locale().Split()
+						if m.Msg.Templating() != nil {
+							if string(m.Msg.Locale()) != tplLocale {
+								c.Fail("monitor", "M-fallback", "template-msg-locale", fmt.Sprintf("a message that uses a template translation in %s reports locale %q", tplLocale, m.Msg.Locale()), desc)
+							}
+						} else if m.Msg.Text() != wantText || string(l) != wantLang {
+							c.Fail("monitor", "M-fallback", "msg-locale-beside-template", fmt.Sprintf("a message without a template translation has text %q and locale %q, the fallback prescribes %q in %s", m.Msg.Text(), m.Msg.Locale(), wantText, wantLang), desc)
+						}
+					}
+				}
+			}
+		}
+	}
+	// (b)
+	for _, first := range []string{"fra", "spa", "eng", "kin"} {
+		for _, second := range []string{"fra", "spa", "eng", "kin"} {
+			if first == second {
+				continue
+			}
+			catUUID, otherUUID := "37d8813f-1402-4ad2-9cc2-e9054a96525b", "47d8813f-1402-4ad2-9cc2-e9054a96525c"
+			def := map[string]any{"uuid": "50c3706e-fedb-42c0-8eab-dda3335714b7", "name": "L", "spec_version": "13.6.0", "language": "eng", "type": "messaging", "revision": 1, "expire_after_minutes": 60,
+				"localization": map[string]any{"fra": map[string]any{catUUID: map[string]any{"name": []string{"Rouge"}}}, "spa": map[string]any{catUUID: map[string]any{"name": []string{"Rojo"}}}},
+				"nodes": []any{
+					map[string]any{"uuid": "72a1f5df-49f9-45df-94c9-d86f7ea064e5", "router": map[string]any{"type": "switch", "wait": map[string]any{"type": "msg"}, "operand": "@input.text", "result_name": "Color",
+						"cases":      []any{map[string]any{"uuid": "a7d8813f-1402-4ad2-9cc2-e9054a96525d", "type": "has_any_word", "arguments": []string{"red"}, "category_uuid": catUUID}},
+						"categories": []any{map[string]any{"uuid": catUUID, "name": "Red", "exit_uuid": "d7a36118-0a38-4b35-a7e4-ae89042f0d3c"}, map[string]any{"uuid": otherUUID, "name": "Other", "exit_uuid": "e7a36118-0a38-4b35-a7e4-ae89042f0d3d"}},
+						"default_category_uuid": otherUUID}, "exits": []any{map[string]any{"uuid": "d7a36118-0a38-4b35-a7e4-ae89042f0d3c", "destination_uuid": "82a1f5df-49f9-45df-94c9-d86f7ea064e6"}, map[string]any{"uuid": "e7a36118-0a38-4b35-a7e4-ae89042f0d3d"}}},
+					map[string]any{"uuid": "82a1f5df-49f9-45df-94c9-d86f7ea064e6", "actions": []any{map[string]any{"uuid": "f97cd6d5-3354-4dbd-85bc-6c1f87849eed", "type": "send_msg", "text": "You said @results.color.category_localized"},
+						map[string]any{"uuid": "097cd6d5-3354-4dbd-85bc-6c1f87849eee", "type": "set_contact_language", "language": second}},
+						"exits": []any{map[string]any{"uuid": "f7a36118-0a38-4b35-a7e4-ae89042f0d3e", "destination_uuid": "72a1f5df-49f9-45df-94c9-d86f7ea064e5"}}}}}
+			aj, _ := json.Marshal(map[string]any{"flows": []any{def}})
+			desc := map[string]any{"assets": json.RawMessage(aj), "contact_language": first, "then": second, "label": "result-saved-again"}
+			src, err := static.NewSource(aj)
+			if err != nil {
+				continue
+			}
+			env := envs.NewBuilder().WithAllowedLanguages("eng", "fra", "spa").Build()
+			sa, err := engine.NewSessionAssets(env, src, nil)
+			if err != nil {
+				continue
+			}
+			// in the flow's own language the result carries no localized name
+			names := map[string]string{"fra": "Rouge", "spa": "Rojo", "eng": "", "kin": ""}
+			c.Guard("C18-run", "panic:localize", desc, func() {
+				restore := setDeterministic(1)
+				defer restore()
+				contact := flows.NewEmptyContact(sa, "Ann", i18n.Language(first), nil)
+				trig := triggers.NewBuilder(env, assets.NewFlowReference("50c3706e-fedb-42c0-8eab-dda3335714b7", "L"), contact).Manual().Build()
+				s, _, err := engine.NewBuilder().Build().NewSession(sa, trig)
+				if err != nil {
+					return
+				}
+				for k, want := range []string{names[first], names[second]} {
+					if _, err := s.Resume(resumes.NewMsg(nil, nil, flows.NewMsgIn(flows.MsgUUID(fmt.Sprintf("0d1c5a36-fff5-4a0f-a2c7-02f7c7f3c4a%d", k)), "tel:+12065550100", nil, "red", nil))); err != nil {
+						return
+					}
+					res := s.Runs()[0].Results().Get("color")
+					c.Count("check:M-fallback-resave")
+					c.Eval(fmt.Sprintf("resave|%s|%s|%d", first, second, k))
+					if res == nil || res.CategoryLocalized != want {
+						got := "<no result>"
+						if res != nil {
+							got = res.CategoryLocalized
+						}
+						c.Fail("monitor", "M-fallback", "category-localized-after-language-change", fmt.Sprintf("visit %d: the result's localized category is %q, the language now in force prescribes %q", k+1, got, want), desc)
+					}
+				}
+			})
+		}
+	}
 }
 
 func contains(xs []string, x string) bool {
